@@ -755,6 +755,15 @@ class Property:
     def on_restart(self, world, sess):
         pass
 
+    def gen_aftermath(self, world, step, rng):
+        """what the caller does right after a call failed (non-crash fault): by default it simply tries the same call
+        again, now without faults - the most ordinary reaction there is.  Properties override this to go on working
+        with the very objects the failed call used."""
+        if step["op"].startswith("env."):
+            return
+        retry = json.loads(json.dumps({k: v for k, v in step.items() if k != "faults"}))
+        yield retry
+
     def final(self, world):
         pass
 
